@@ -47,9 +47,17 @@ func main() {
 		"head/allowed floor/situation/step; non-trivial = the property allows a floor > 0 in that state (something may be pruned)")
 
 	fixed, note, err := probeVariant()
-	if err != nil {
-		res.Note("variant probe: %v", err)
+	if err != nil && !strings.Contains(err.Error(), "PruneUpto") {
+		res.Note("variant probe: %v", err) // the generator or the plain store failed: nothing of C16 can run
 		lib.Finish(f, res)
+	}
+	if err != nil {
+		// PruneUpto cannot even prune a 6-block chain with a 1-byte batch threshold: that is a finding, and the
+		// scenarios still run (as the repaired variant) to show what else breaks
+		res.Violate(lib.Violation{Sig: "prune-fails-on-probe-chain",
+			What:   "pruner.PruneUpto(4, batch threshold 1) on 6 plain blocks (legacy backend): " + err.Error(),
+			Replay: map[string]any{"scenario": "probe", "blocks": 6, "prune_upto": 4, "batch_bytes": 1}})
+		fixed, note = true, "probe failed: "+err.Error()
 	}
 	res.Note("prune variant of the code under test: %s", note)
 	res.SetExtra("prune_variant", map[bool]string{false: "orig (range deletes after all hash-keyed batches)", true: "fixed (range deletes inside every batch)"}[fixed])
